@@ -162,3 +162,75 @@ def h_integ(E, shape):
     rec = spec["lookup"](arr(xr))
     vals = dict(g=rec["g"], c=rec["c"], J=rec["J"])
     user_kkt(E, spec, xr, yr, dr, vals, tol, atol, [0] * n, [0] * m, 0, "C01.integration.")
+
+
+def h_events(E, shape):
+    """C01 (flow-integration solver): the event functions that decide when a variable pinned at a
+    bound is released and when a free one hits a bound.  For an arbitrary filter and state, each
+    event created by ProblemSwitches.create_event_triggers is evaluated at a second arbitrary state
+    and compared with its definition: the bound events x_j - l_j / x_j - u_j of the free variables,
+    and for every pinned (not fixed) variable j exactly one release event that watches component j
+    of the negative augmented-Lagrangian gradient with the direction of its bound."""
+    IS = boot.mod("integration.integration_solver")
+    PS = boot.mod("integration.problem_switches")
+    RF = boot.mod("integration.restricted_flow")
+    P = boot.mod("params")
+    np = boot.np
+    n, m = len(shape["vars"]), len(shape["cons"])
+    user, spec = common.make_point_problem(E, shape["vars"], shape["cons"], fmt=shape.get("fmt", "coo"))
+    rho = E.real("rho", lo=0, lo_strict=True)
+    for b in spec["xl"] + spec["xu"]:
+        if b not in (INF, -INF):
+            E.assume(land(b >= -1000.0, b <= 1000.0))
+    params = P.Params(rho=rho)
+    # the objects IntegrationSolver.solve builds before it integrates (equality rows only: no slacks,
+    # the internal problem has the user's variables)
+    T0 = boot.mod("transform").Transformation(user, params)
+    flow = boot.mod("integration.flow").Flow(T0.trans_problem, params, T0.evaluator)
+    lb, ub = spec["xl"], spec["xu"]
+    # current state: free variables strictly inside, pinned ones exactly at one of their bounds
+    filt = [bool(E.bool(f"free{j}")) for j in range(n)]
+    x, side = [], []
+    for j in range(n):
+        v = E.real(f"x{j}")
+        if filt[j]:
+            E.assume(land(lb[j] <= v, v <= ub[j]))
+            side.append(None)
+        else:
+            if lb[j] == -INF and ub[j] == INF:
+                raise Abort()  # a variable without bounds is never pinned
+            at_l = bool(E.bool(f"pin_low{j}")) if (lb[j] != -INF and ub[j] != INF) else lb[j] != -INF
+            E.assume(v == (lb[j] if at_l else ub[j]))
+            if lb[j] != -INF and ub[j] != INF:
+                E.assume(ub[j] - lb[j] >= 1.0)  # not a fixed variable (those get no release event)
+            side.append(at_l)
+        x.append(v)
+    y = [E.real(f"y{i}") for i in range(m)]
+    rf = RF.RestrictedFlow(flow, np.array(filt, dtype=bool))
+    events = rf.create_event_triggers(np.array(x + y), rho)
+    # a second, arbitrary state at which the events are evaluated
+    x2 = [E.real(f"z{j}") for j in range(n)]
+    y2 = [E.real(f"w{i}") for i in range(m)]
+    z2 = np.array(x2 + y2)
+    rec = spec["lookup"](arr(x2))
+    g, c, J = rec["g"], rec["c"], rec["J"]
+    ngrad = [-(g[j] + sum((J[i][j] * (rho * c[i] + y2[i]) for i in range(m)), 0.0)) for j in range(n)]
+    T = PS.TriggerType
+    by = {}
+    for ev in events:
+        by.setdefault(ev.type, []).append(ev)
+    rel = by.get(T.GRAD_FIXED, [])
+    pinned = [j for j in range(n) if not filt[j]]
+    E.prove(sorted(ev.index for ev in rel) == pinned, "C01.integration.one_release_event_per_pinned_variable")
+    for ev in rel:
+        j = ev.index
+        E.prove(ev(0.0, z2) == ngrad[j], "C01.integration.release_event_watches_its_own_gradient_component", info=dict(index=j))
+        E.prove(ev.direction == (1.0 if side[j] else -1.0), "C01.integration.release_event_direction_matches_the_bound")
+    for ev in by.get(T.LB, []):
+        j = ev.index
+        E.prove(filt[j] and lb[j] != -INF and bool(ev(0.0, z2) == x2[j] - lb[j]) and ev.direction == -1.0, "C01.integration.bound_events_watch_their_own_variable")
+    for ev in by.get(T.UB, []):
+        j = ev.index
+        E.prove(filt[j] and ub[j] != INF and bool(ev(0.0, z2) == x2[j] - ub[j]) and ev.direction == 1.0, "C01.integration.bound_events_watch_their_own_variable")
+    E.prove(sorted(ev.index for ev in by.get(T.LB, [])) == [j for j in range(n) if filt[j] and lb[j] != -INF] and sorted(ev.index for ev in by.get(T.UB, [])) == [j for j in range(n) if filt[j] and ub[j] != INF], "C01.integration.bound_events_watch_their_own_variable")
+    E.prove(all(getattr(ev, "terminal", False) for ev in events), "C01.integration.events_are_terminal")
